@@ -352,7 +352,8 @@ Definition build_enum (p : path) (size : N) (v : vis) (ed : enum_def) : outcome 
         match ed_singleton ed with
         | Some a => [impl_sexp (Atom "notrait") name
                        [fn_sexp [] v true "get" [] [tk "Self"]
-                          [tk "unsafe"; brace [tk "*"; paren ([tint a "-"] ++ tks ["as"; "*"; "const"; "Self"])]]]]
+                          [tk "unsafe"; brace [paren ([tint a "-"] ++ tks ["as"; "*"; "const"; "Self"]);
+                                               tk "."; tk "read"; paren []]]]]
         | None => []
         end)
   end.
